@@ -100,6 +100,7 @@ func c08run(r *kernel.Run, seed uint64, controlled bool) {
 		ndev = 2
 	}
 	sameAccount := r.Choose(3) == 2 // two devices of one member
+	window := []int{100, 1, 2, 3}[r.Choose(4)] // precomputed-keys window of every store: small windows make out-of-order arrivals miss and retry
 	if !controlled { // lossy and duplicating network during the history (repaired by head exchange at the end)
 		if r.Choose(2) == 1 {
 			s.dropRate = 1 + r.Choose(10)
@@ -109,7 +110,7 @@ func c08run(r *kernel.Run, seed uint64, controlled bool) {
 		}
 	}
 	for i := 0; i < ndev; i++ {
-		n, err := s.addNode(fmt.Sprintf("d%d", i), 100)
+		n, err := s.addNode(fmt.Sprintf("d%d", i), window)
 		if err != nil {
 			r.Infra("node: %v", err)
 			return
@@ -148,7 +149,10 @@ func c08run(r *kernel.Run, seed uint64, controlled bool) {
 	if controlled {
 		nmsgs = 1 + r.Choose(3)
 	}
-	r.Logf("pipeline: devices=%d same_account(d0,d1)=%v messages=%d connected_from_start=%v eagerdag=%v controlled=%v drop=%d/64 dup=%d/64", ndev, sameAccount, nmsgs, connectedFromStart, s.w.EagerDag, controlled, s.dropRate, s.dupRate)
+	r.Logf("pipeline: devices=%d same_account(d0,d1)=%v messages=%d connected_from_start=%v eagerdag=%v controlled=%v drop=%d/64 dup=%d/64 window=%d", ndev, sameAccount, nmsgs, connectedFromStart, s.w.EagerDag, controlled, s.dropRate, s.dupRate, window)
+	if window < 100 {
+		r.Fault("small_key_window")
+	}
 
 	if controlled {
 		sc = sched.New(r.Choose, r.Choose(3), func(f string, a ...any) { r.Logf(f, a...); r.Step() })
